@@ -117,7 +117,15 @@ def check(ctx: Ctx) -> str:
     ctx.need(len(updefs) == 1, "FileSystemLoader.get_source uptodate closure not found")
     u = updefs[0]
     cmp_ = [n for n in ast.walk(u) if isinstance(n, ast.Compare)]
-    ok = len(cmp_) == 1 and isinstance(cmp_[0].ops[0], ast.Eq) and {ast.unparse(cmp_[0].left), ast.unparse(cmp_[0].comparators[0])} == {"os.path.getmtime(filename)", "mtime"}
+    def _res(e: ast.expr) -> str:
+        # a local naming the current mtime is read through
+        if isinstance(e, ast.Name):
+            d_ = [a.value for a in ast.walk(u) if isinstance(a, ast.Assign) and len(a.targets) == 1 and isinstance(a.targets[0], ast.Name) and a.targets[0].id == e.id]
+            if len(d_) == 1:
+                return ast.unparse(d_[0])
+        return ast.unparse(e)
+
+    ok = len(cmp_) == 1 and isinstance(cmp_[0].ops[0], ast.Eq) and {_res(cmp_[0].left), _res(cmp_[0].comparators[0])} == {"os.path.getmtime(filename)", "mtime"}
     ctx.check(ok, "fs:uptodate-compare", "loaders:FileSystemLoader.get_source", "mtime comparison", "uptodate must compare the file's current mtime with the recorded one for equality", fs.loc(u), detail={"compare": ast.unparse(cmp_[0]) if cmp_ else None})
     hs = [h for h in ast.walk(u) if isinstance(h, ast.ExceptHandler)]
     ok = len(hs) == 1 and ast.unparse(hs[0].type) == "OSError" and len(hs[0].body) == 1 and ast.unparse(hs[0].body[0]) == "return False"
@@ -135,12 +143,14 @@ def check(ctx: Ctx) -> str:
     pdefs = [n for n in ast.walk(pk.node) if isinstance(n, ast.FunctionDef) and n is not pk.node]
     ok = False
     if len(pdefs) == 1:
-        for b in [x for x in ast.walk(pdefs[0]) if isinstance(x, ast.BoolOp) and isinstance(x.op, ast.And) and len(x.values) == 2]:
-            a0, a1 = b.values
-            if isinstance(a0, ast.Call) and astq.callee(a0) == "os.path.isfile" and len(a0.args) == 1:
-                pth = ast.unparse(a0.args[0])
-                lc = ast.unparse(a1).replace(" ", "")
-                ok = ok or lc in (f"os.path.getmtime({pth})==mtime", f"mtime==os.path.getmtime({pth})")
+        # truth table of the closure over (file exists, mtime equal): true only when both hold
+        isf = [c for c in astq.calls(pdefs[0]) if astq.callee(c) == "os.path.isfile" and len(c.args) == 1]
+        cps = [c for c in ast.walk(pdefs[0]) if isinstance(c, ast.Compare) and isinstance(c.ops[0], ast.Eq) and len(c.ops) == 1]
+        if len(isf) == 1 and len(cps) == 1:
+            pth = ast.unparse(isf[0].args[0])
+            if {ast.unparse(cps[0].left), ast.unparse(cps[0].comparators[0])} == {f"os.path.getmtime({pth})", "mtime"}:
+                tb_ = astq.bool_table(pdefs[0], [ast.unparse(isf[0]), ast.unparse(cps[0])])
+                ok = all(v == (e_ and q_) for (e_, q_), v in tb_.items())
     ctx.check(ok, "package:uptodate", "loaders:PackageLoader.get_source", "uptodate closure", "PackageLoader's uptodate must check existence and mtime equality", pk.loc())
 
     ctx.rule("R4", "create_cache: 0 -> no cache, negative -> plain dict, positive -> LRUCache(size); copy_cache mirrors it; overlays and new environments get their own cache")
